@@ -270,3 +270,110 @@ UNITS += [
          assumptions=["coefficient magnitudes zero or within [1e-100, 1e100]"],
          note="QuadraticSolver::solve_general: dispatch to the three solvers with their preconditions satisfied (finite 1/a and b/2a when |a| >= min_a; constructor EXPECT holds); every reported distance > 0 or no_intersection in all four branches"),
 ]
+
+
+# ---------------------------------------------------------------------------
+# calc_normal: the normal is the (normalised) gradient of the surface function, in GLOBAL axis order
+# ---------------------------------------------------------------------------
+import re as _re  # noqa: E402
+from vkit.extract import ExtractionDrift as _Drift  # noqa: E402
+
+SURF_DIR = "src/orange/surf/"
+NORMAL_MODEL = """
+/* exact small-integer abstraction (VERIF_REAL_BITS = 8, every input in [-3, 3], no intermediate exceeds 8 bits): the gradient components are polynomials of degree <= 1
+   in the position and in each coefficient, so agreement on 7 values per variable is agreement for all reals.  make_unit_vector is an uninterpreted function of the
+   three components: the unit decides WHICH vector is normalised, not the normalisation itself. */
+typedef struct { real_type v[3]; } Real3;
+int __CPROVER_uninterpreted_unit0(int, int, int);
+int __CPROVER_uninterpreted_unit1(int, int, int);
+int __CPROVER_uninterpreted_unit2(int, int, int);
+typedef struct { int v[3]; } Unit3;
+static Unit3 UT_unit(Real3 n) { Unit3 r = {{__CPROVER_uninterpreted_unit0(n.v[0], n.v[1], n.v[2]), __CPROVER_uninterpreted_unit1(n.v[0], n.v[1], n.v[2]), __CPROVER_uninterpreted_unit2(n.v[0], n.v[1], n.v[2])}}; return r; }
+#define UNIT_OF(r, g0, g1, g2) ((r).v[0] == __CPROVER_uninterpreted_unit0((g0), (g1), (g2)) && (r).v[1] == __CPROVER_uninterpreted_unit1((g0), (g1), (g2)) && (r).v[2] == __CPROVER_uninterpreted_unit2((g0), (g1), (g2)))
+#define R3(x) ((x) >= -3 && (x) <= 3)
+#define POS_OK (R3(pos->v[0]) && R3(pos->v[1]) && R3(pos->v[2]))
+"""
+NORMAL_RULES = [
+    Rule(r"Real3 (\w+)\{([^{}]*)\};", r"Real3 \1 = {{\2}};", "*", note="Array aggregate initialisation"),
+    Rule(r"Real3\{([^{}]*)\}", r"(Real3){{\1}}", "*", note="Array temporary"),
+    Rule(r"\bpos\[", "pos->v[", "*", note="Real3 const& -> pointer; Array::operator[]"),
+    Rule(r"\bnorm\[", "norm.v[", "*", note="Array::operator[]"),
+    Rule(r"\borigin_\[", "self->origin_.v[", "*", note="member Array::operator[]"),
+    Rule(r"to_int\(Axis::x\)", "0", "*", note="to_int(Axis::x) == 0 (bound)"), Rule(r"to_int\(Axis::y\)", "1", "*", note="to_int(Axis::y) == 1 (bound)"),
+    Rule(r"to_int\(Axis::z\)", "2", "*", note="to_int(Axis::z) == 2 (bound)"), Rule(r"to_int\(Axis::size_\)", "3", "*", note="to_int(Axis::size_) == 3 (bound)"),
+    Rule(r"to_int\(([TUV])\)", r"\1_AX", "*", note="template axis / derived axes (extracted from the class)"),
+    Rule(r"for \(auto i = ", "for (int i = ", "*", note="auto"),
+    Rule(r"make_unit_vector\(pos\)", "UT_unit(*pos)", "*", note="normalisation -> uninterpreted"),
+    Rule(r"make_unit_vector\(", "UT_unit(", "*", note="normalisation -> uninterpreted"),
+    Rule(r"(?<![\w.>])(tsq_|origin_u_|origin_v_|[a-j]_)\b", r"self->\1", "*", note="data members"),
+    Rule(r"return norm;", "return UT_ident(norm);", "*", note="already-unit vector returned as is"),
+    Rule(r"return normal_;", "return UT_ident(self->normal_);", "*", note="stored unit normal returned as is"),
+    Rule(r"return this->calc_normal\(\);", "return SURF_calc_normal0(self);", "*", note="delegation"),
+]
+
+
+def axes_defs(ctx, path, axis):
+    """T bound to `axis`; U, V from the class's own `static constexpr Axis U{...}` lines."""
+    text = ctx.read(path)
+    out = "#define T_AX %d\n" % axis
+    for nm in "UV":
+        m = _re.search(r"static constexpr Axis %s\{T == Axis::(\w) \? Axis::(\w) : Axis::(\w)\};" % nm, text)
+        if not m:
+            raise _Drift("definition of axis %s not found in %s" % (nm, path))
+        ax = {"x": 0, "y": 1, "z": 2}
+        out += "#define %s_AX (T_AX == %d ? %d : %d)   /* %s */\n" % (nm, ax[m.group(1)], ax[m.group(2)], ax[m.group(3)], m.group(0))
+    return out
+
+
+NORMALS = {
+    # name: (file, locator, struct fields, axis-templated?, requires on members, gradient components g0,g1,g2 (global axis order))
+    "cone": ("ConeAligned.hh", r"CELER_FUNCTION Real3 ConeAligned<T>::calc_normal\(Real3 const& pos\) const", "Real3 origin_; real_type tsq_;", True,
+             "R3(self->origin_.v[0]) && R3(self->origin_.v[1]) && R3(self->origin_.v[2]) && R3(self->tsq_)",
+             ["(pos->v[%d] - self->origin_.v[%d]) * (T_AX == %d ? -self->tsq_ : 1)" % (k, k, k) for k in range(3)],
+             "f = -t^2 (x_T - o_T)^2 + (x_U - o_U)^2 + (x_V - o_V)^2:  grad f / 2"),
+    "cyl": ("CylAligned.hh", r"CELER_FUNCTION Real3 CylAligned<T>::calc_normal\(Real3 const& pos\) const", "real_type origin_u_, origin_v_, radius_sq_;", True,
+            "R3(self->origin_u_) && R3(self->origin_v_)",
+            ["(T_AX == %d ? 0 : (U_AX == %d ? pos->v[%d] - self->origin_u_ : pos->v[%d] - self->origin_v_))" % (k, k, k, k) for k in range(3)],
+            "f = (x_U - o_U)^2 + (x_V - o_V)^2 - r^2:  grad f / 2"),
+    "ccyl": ("CylCentered.hh", r"CELER_FUNCTION Real3 CylCentered<T>::calc_normal\(Real3 const& pos\) const", "real_type radius_sq_;", True, "1",
+             ["(T_AX == %d ? 0 : pos->v[%d])" % (k, k) for k in range(3)], "f = x_U^2 + x_V^2 - r^2:  grad f / 2"),
+    "sphere": ("Sphere.hh", r"CELER_FUNCTION Real3 Sphere::calc_normal\(Real3 const& pos\) const", "Real3 origin_; real_type radius_sq_;", False,
+               "R3(self->origin_.v[0]) && R3(self->origin_.v[1]) && R3(self->origin_.v[2])",
+               ["(pos->v[%d] - self->origin_.v[%d])" % (k, k) for k in range(3)], "f = |x - o|^2 - r^2:  grad f / 2"),
+    "csphere": ("SphereCentered.hh", r"CELER_FUNCTION Real3 SphereCentered::calc_normal\(Real3 const& pos\) const", "real_type radius_sq_;", False, "1",
+                ["pos->v[%d]" % k for k in range(3)], "f = |x|^2 - r^2:  grad f / 2"),
+    "sq": ("SimpleQuadric.hh", r"CELER_FUNCTION Real3 SimpleQuadric::calc_normal\(Real3 const& pos\) const", "real_type a_, b_, c_, d_, e_, f_, g_;", False,
+           "R3(self->a_) && R3(self->b_) && R3(self->c_) && R3(self->d_) && R3(self->e_) && R3(self->f_)",
+           ["2 * self->a_ * pos->v[0] + self->d_", "2 * self->b_ * pos->v[1] + self->e_", "2 * self->c_ * pos->v[2] + self->f_"],
+           "f = a x^2 + b y^2 + c z^2 + d x + e y + f z + g:  grad f"),
+    "gq": ("GeneralQuadric.hh", r"CELER_FUNCTION Real3 GeneralQuadric::calc_normal\(Real3 const& pos\) const", "real_type a_, b_, c_, d_, e_, f_, g_, h_, i_, j_;", False,
+           "R3(self->a_) && R3(self->b_) && R3(self->c_) && R3(self->d_) && R3(self->e_) && R3(self->f_) && R3(self->g_) && R3(self->h_) && R3(self->i_)",
+           ["2 * self->a_ * pos->v[0] + self->d_ * pos->v[1] + self->f_ * pos->v[2] + self->g_", "2 * self->b_ * pos->v[1] + self->d_ * pos->v[0] + self->e_ * pos->v[2] + self->h_",
+            "2 * self->c_ * pos->v[2] + self->e_ * pos->v[1] + self->f_ * pos->v[0] + self->i_"],
+           "f = a x^2 + b y^2 + c z^2 + d xy + e yz + f zx + g x + h y + i z + j:  grad f"),
+}
+
+
+def build_normal(kind, axis=None):
+    fname, loc, fields, templ, req, grad, doc = NORMALS[kind]
+
+    def build(ctx):
+        pc = ctx.func(SURF_DIR + fname, loc, NORMAL_RULES, name=fname[:-3] + "::calc_normal" + ("<%s>" % "xyz"[axis] if templ else ""))
+        ax = axes_defs(ctx, SURF_DIR + fname, axis) if templ else ""
+        return (HDR + NORMAL_MODEL + ax + "typedef struct { " + fields + " } Surf;\n"
+                "/* " + doc + " */\n"
+                "Unit3 SURF_calc_normal(Surf const* self, Real3 const* pos)\n"
+                "__CPROVER_requires(self != 0 && pos != 0 && POS_OK && " + req + ")\n__CPROVER_assigns()\n"
+                "/* the returned vector is the normalisation of the gradient of the surface function at pos, component k along GLOBAL axis k */\n"
+                "__CPROVER_ensures(UNIT_OF(__CPROVER_return_value, " + ", ".join(grad) + "))\n"
+                "{" + pc.body + "}\nvoid h_nrm(void)\n{\n    Surf s; Real3 p;\n    SURF_calc_normal(&s, &p);\n    VERIF_CANARY();\n}\n")
+    return build
+
+
+for _k, _spec in NORMALS.items():
+    for _ax in ((0, 1, 2) if _spec[3] else (None,)):
+        _name = "c12_normal_%s%s" % (_k, "" if _ax is None else "_" + "xyz"[_ax])
+        UNITS.append(Unit(_name, build_normal(_k, _ax), "h_nrm", enforce="SURF_calc_normal", timeout=600, backend=["sat", "kissat", "cvc5"], defines=["VERIF_REAL_BITS=8"], unwind=5,
+                          must_have=[r"SURF_calc_normal.postcondition"], checks=["--bounds-check", "--pointer-check", "--signed-overflow-check"],
+                          assumptions=["exact small-integer abstraction of real_type (complete for these degree-1 polynomial identities; floating-point rounding of the components not covered)", "make_unit_vector uninterpreted (normalisation itself not decided)"],
+                          note=_spec[0][:-3] + "::calc_normal" + ("<%s>" % "xyz"[_ax] if _ax is not None else "") + ": the vector that is normalised is the gradient of the surface function, each component on its own global axis"))
